@@ -78,6 +78,11 @@ def case(ctx, i, rec):
             ts = res
     elif source.startswith("synthetic"):
         ts, mn = with_mn(ts, rng, source.split("_")[1])
+    if (i // 6) % 2 == 1:
+        # every node id permuted: samples are no longer the first rows, non-samples get ids below num_samples
+        ts, _ = zoo.renumber_all(ts, rng)
+        source += "+renumbered"
+        rec.count("inputs:samples_not_first")
     rec.sig = zoo.ts_sig(ts, source)
     per_site = np.bincount(ts.mutations_site, minlength=ts.num_sites)
     rec.nontrivial = bool(np.any(per_site >= 2))
@@ -114,7 +119,7 @@ def case(ctx, i, rec):
             rec.count(f"calls:{sel}")
             rec.count(f"calls:unconstrained={unc}")
             rec.count(f"calls:{source}")
-            if nested and unc and source == "synthetic_scrambled":
+            if nested and unc and source.startswith("synthetic_scrambled"):
                 rec.count("calls_nested_mutations_with_out_of_order_mn")
             if np.any(ts.mutations_parent != tskit.NULL):
                 rec.count("calls_with_nested_mutations")
@@ -176,5 +181,5 @@ def reach(ctx, agg):
     need = {f"calls:{s}": 100 for s in SEL}
     need.update({"calls_with_nested_mutations": 50, "calls_with_root_mutations": 50, "sampledata_files": 10,
                  "sampledata_files_where_a_historical_carrier_is_older": 3, "calls:synthetic_scrambled": 30,
-                 "calls:unconstrained=True": 100})
+                 "calls:unconstrained=True": 100, "inputs:samples_not_first": 20})
     return [f"{k} = {agg.cnt.get(k, 0)} < {v}" for k, v in need.items() if agg.cnt.get(k, 0) < v]
